@@ -203,18 +203,21 @@ def validGroups (resp : List Hash) (gs : List (Prefix × List Hash)) : Bool :=
   resp.all (fun h => gs.any (fun g => g.1 == prefix2 h)) &&
   (gs.map (·.1)).eraseDups.length == gs.length
 
-/-- second loop of `storeInCache`: negative entries for requested prefixes that
-are (now) absent from the cache -/
-def storeNeg (now ttl : Nat) : List Hash → Cache → Cache
+/-- second loop of `storeInCache`: a negative entry for every requested prefix
+that is absent from the cache (`Get` first: it also refreshes the usage order)
+and for which the response carried no hash (`hashToStore[pref]` missing). -/
+def storeNeg (now ttl : Nat) (keys : List Prefix) : List Hash → Cache → Cache
   | [], c => c
   | h :: rest, c =>
     match c.get (prefix2 h) with
-    | (none, c1) => storeNeg now ttl rest (setCache now ttl c1 (prefix2 h) [])
-    | (some _, c1) => storeNeg now ttl rest c1
+    | (some _, c1) => storeNeg now ttl keys rest c1
+    | (none, c1) =>
+      if keys.contains (prefix2 h) then storeNeg now ttl keys rest c1
+      else storeNeg now ttl keys rest (setCache now ttl c1 (prefix2 h) [])
 
 def storeInCache (now ttl : Nat) (toRequest : List Hash) (gs : List (Prefix × List Hash)) (c : Cache) : Cache :=
   let c1 := gs.foldl (fun c g => setCache now ttl c g.1 g.2) c
-  storeNeg now ttl toRequest c1
+  storeNeg now ttl (gs.map (·.1)) toRequest c1
 
 /-! ### Check -/
 
